@@ -51,13 +51,15 @@ def specialize_source(source, specialize_for, search_in_folders=[]):
                     + "{ //autovectorized\n"
                 )
             elif specialize_for == "opencl":
-                new_lines.append(f"int {varname}; //autovectorized\n")
+                # the loop variable gets a scope of its own (as the cpu `for`
+                # gives it), so that two blocks can use the same name
+                new_lines.append(f"{{ int {varname}; //autovectorized\n")
                 new_lines.append(
                     f"{varname}=get_global_id(0); //autovectorized\n"
                 )
 
             elif specialize_for == "cuda":
-                new_lines.append(f"int {varname}; //autovectorized\n")
+                new_lines.append(f"{{ int {varname}; //autovectorized\n")
                 new_lines.append(
                     f"{varname}=blockDim.x * blockIdx.x + threadIdx.x;"
                     "//autovectorized\n"
@@ -67,9 +69,9 @@ def specialize_source(source, specialize_for, search_in_folders=[]):
             if specialize_for.startswith("cpu"):
                 new_lines.append("}//end autovectorized\n")
             elif specialize_for == "opencl":
-                new_lines.append("//end autovectorized\n")
-            elif specialize_for == "cuda":
                 new_lines.append("}//end autovectorized\n")
+            elif specialize_for == "cuda":
+                new_lines.append("}}//end autovectorized\n")
 
             inside_vect_block = False
         else:
